@@ -6,24 +6,108 @@ import TzVerif.Model.TzFile
 import TzVerif.Spec.Tzif
 import TzVerif.Proofs.TzifRoundTrip
 import TzVerif.Proofs.TzifReject
+import TzVerif.Proofs.TzifSoundBlock
 
 namespace TzVerif.Proofs
 open TzVerif.Model
 
+namespace TzifSoundAux
+open TzVerif.Spec TzVerif.Proofs.TzifBE TzVerif.Proofs.TzifBlocks TzVerif.Proofs.TzifDecode
+open TzVerif.Proofs.TzifSoundBE TzVerif.Proofs.TzifSoundStruct TzVerif.Proofs.TzifSoundBlock
+
+/-- the version byte of an accepted header is the fifth byte of the input -/
+theorem version_byte {c : Bytes} {h : Header} {rest : Bytes} (hb : ∀ x ∈ c, x < 256)
+    (hp : parseHeader c = .ok (h, rest)) : VerOK (c.getD 4 0) h.version := by
+  obtain ⟨vb, res, _, _, hver, _, hc⟩ := parseHeader_struct hb hp
+  have : c.getD 4 0 = vb := by rw [hc]; rfl
+  rw [this]; exact hver
+
+/-- an accepted footer is NL · text · NL -/
+theorem footer_shape {f : Bytes} {ext : Bool} {r : Option TransitionRule} (h : parseFooter f ext = .ok r) :
+    ∃ ft, f = [10] ++ ft ++ [10] := by
+  unfold parseFooter at h
+  split at h
+  · contradiction
+  split at h
+  · contradiction
+  rename_i hcond
+  simp only [ge_iff_le, Bool.not_eq_true', Bool.not_eq_false, Bool.and_eq_true, decide_eq_true_eq,
+    beq_iff_eq] at hcond
+  obtain ⟨⟨hlen, hhead⟩, hlast⟩ := hcond
+  match f, hlen, hhead, hlast with
+  | a :: b :: t, _, hhead, hlast =>
+    simp only [List.head?_cons, Option.some.injEq] at hhead
+    subst hhead
+    rw [List.getLast?_cons_cons, List.getLast?_eq_some_getLast (List.cons_ne_nil b t)] at hlast
+    simp only [Option.some.injEq] at hlast
+    refine ⟨(b :: t).dropLast, ?_⟩
+    have := List.dropLast_concat_getLast (List.cons_ne_nil b t)
+    rw [hlast] at this
+    rw [List.append_assoc, this]
+    rfl
+
+/-- prefix restriction: the header and the 32-bit block, cut out of the input, parse with nothing left -/
+theorem v1_block {c : Bytes} {h : Header} {rest : Bytes} {b1 : DataBlocks} {rest1 : Bytes} (hb : ∀ x ∈ c, x < 256)
+    (hp : parseHeader c = .ok (h, rest)) (hr : readDataBlocks 4 rest h = .ok (b1, rest1)) (hv : h.version ≠ 1) :
+    ∃ v1, V1BlockOK v1 ∧ c = v1 ++ rest1 := by
+  obtain ⟨vb, res, hres, _, hver, hcnt, hc⟩ := parseHeader_struct hb hp
+  obtain ⟨hrest, l1, l2, l3, l4, l5, l6, l7⟩ := readDataBlocks_struct hr
+  obtain ⟨k1, k2, k3, k4, k5, k6, k7, k8, k9, k10⟩ := hcnt
+  let X : Bytes := b1.transitionTimes ++ (b1.transitionTypes ++ (b1.localTimeTypes ++ (b1.designations ++
+    (b1.leapSeconds ++ (b1.stdWalls ++ (b1.utLocals ++ []))))))
+  refine ⟨hdrEnc vb res h X, ⟨h, X, b1, ?_, hv, ?_⟩, ?_⟩
+  · exact parseHeader_enc vb h.version res X _ _ _ _ _ _ hres hver k1 k2 k3 k4 k5 k6 k7 k8 k9 k10
+  · exact readDataBlocks_enc 4 h _ _ _ _ _ _ _ [] l1 l2 l3 l4 l5 l6 l7
+  · rw [hc, hrest]
+    simp only [X, hdrEnc, List.append_assoc, List.cons_append, List.nil_append, List.append_nil]
+
+end TzifSoundAux
+
 theorem beBytes_beSigned (n : Nat) (b : Bytes) (hn : 0 < n) (hl : b.length = n) (hb : ∀ x ∈ b, x < 256) :
     Spec.beBytes n (beSigned b) = b := by
-  sorry
+  subst hl
+  exact TzifSoundBE.beBytes_beSigned' b hb
 
-theorem be32u_be32 (b : Bytes) (hl : b.length = 4) (hb : ∀ x ∈ b, x < 256) : Spec.be32u (be32 b) = b := by
-  sorry
+theorem be32u_be32 (b : Bytes) (hl : b.length = 4) (hb : ∀ x ∈ b, x < 256) : Spec.be32u (be32 b) = b :=
+  TzifSoundStruct.be32u_be32' b hl hb
 
+open TzifSoundAux TzVerif.Proofs.TzifSoundStruct TzVerif.Proofs.TzifSoundBlock in
 /-- version 1 -/
 theorem decode_sound_v1 (b : Bytes) (hb : ∀ x ∈ b, x < 256) (z : TimeZone) (h : parseTzFile b = .ok z)
     (hv : b.getD 4 0 = 0) :
     ∃ l : Spec.Layout, Spec.LayoutOK z l ∧ l.versionByte = 0 ∧ Spec.TimesFit 32 z ∧ z.extraRule = none ∧
       b = Spec.encodeV1 z l := by
-  sorry
+  unfold parseTzFile parseTzFileWith at h
+  split at h
+  · contradiction
+  rename_i hd rest hh
+  have hvb := version_byte hb hh
+  rw [hv] at hvb
+  have hv1 : hd.version = 1 := by
+    rcases hvb with ⟨_, h1⟩ | ⟨h0, _⟩ | ⟨h0, _⟩
+    · exact h1
+    · omega
+    · omega
+  rw [if_pos hv1] at h
+  split at h
+  · contradiction
+  rename_i blocks c hr
+  split at h
+  · contradiction
+  rename_i hc
+  have : c = [] := by simpa using hc
+  subst this
+  obtain ⟨l, lok, lver, ltf, leq⟩ := block_sound 4 (by decide) b hb hd rest blocks [] none parseFooter z hh hr h
+  refine ⟨l, lok, ?_, ltf, (parse_struct h).2.2.2.2, ?_⟩
+  · rw [hv1] at lver
+    rcases lver with ⟨h0, _⟩ | ⟨_, h1⟩ | ⟨_, h1⟩
+    · exact h0
+    · omega
+    · omega
+  · rw [List.append_nil] at leq
+    exact leq
 
+open TzifSoundAux TzVerif.Proofs.TzifSoundStruct TzVerif.Proofs.TzifSoundBlock in
 /-- versions 2 and 3 -/
 theorem decode_sound_v2 (b : Bytes) (hb : ∀ x ∈ b, x < 256) (z : TimeZone) (h : parseTzFile b = .ok z)
     (hv : b.getD 4 0 ≠ 0) :
@@ -31,6 +115,43 @@ theorem decode_sound_v2 (b : Bytes) (hb : ∀ x ∈ b, x < 256) (z : TimeZone) (
       Spec.V1BlockOK v1 ∧ Spec.LayoutOK z l ∧ (l.versionByte = 0 ∨ l.versionByte = 50 ∨ l.versionByte = 51) ∧
       Spec.TimesFit 64 z ∧ b = Spec.encodeV2 v1 z l footerText ∧
       parseFooter ([10] ++ footerText ++ [10]) (l.versionByte == 51) = .ok z.extraRule := by
-  sorry
+  unfold parseTzFile parseTzFileWith at h
+  split at h
+  · contradiction
+  rename_i hd rest hh
+  have hvb := version_byte hb hh
+  have hv1 : hd.version ≠ 1 := by
+    rcases hvb with ⟨h0, _⟩ | ⟨_, h1⟩ | ⟨_, h1⟩
+    · exact absurd h0 hv
+    · omega
+    · omega
+  rw [if_neg hv1] at h
+  split at h
+  · contradiction
+  rename_i b1 rest1 hr1
+  split at h
+  · contradiction
+  rename_i hd2 rest2 hh2
+  split at h
+  · contradiction
+  rename_i blocks footer hr2
+  obtain ⟨v1, v1ok, hbv⟩ := v1_block hb hh hr1 hv1
+  have hb1 : ∀ x ∈ rest1, x < 256 := by
+    intro x hx; apply hb; rw [hbv]; simp [hx]
+  obtain ⟨l, lok, lver, ltf, leq⟩ :=
+    block_sound 8 (by decide) rest1 hb1 hd2 rest2 blocks footer (some footer) parseFooter z hh2 hr2 h
+  have hfoot : parseFooter footer (hd2.version == 3) = .ok z.extraRule := (parse_struct h).2.2.2.2
+  obtain ⟨ft, hft⟩ := footer_shape hfoot
+  have hext : (hd2.version == 3) = (l.versionByte == 51) := by
+    rcases lver with ⟨h0, h1⟩ | ⟨h0, h1⟩ | ⟨h0, h1⟩ <;> rw [h0, h1] <;> rfl
+  refine ⟨v1, l, ft, v1ok, lok, ?_, ltf, ?_, ?_⟩
+  · rcases lver with ⟨h0, _⟩ | ⟨h0, _⟩ | ⟨h0, _⟩
+    · exact Or.inl h0
+    · exact Or.inr (Or.inl h0)
+    · exact Or.inr (Or.inr h0)
+  · rw [hbv, leq, hft]
+    simp only [Spec.encodeV2, List.append_assoc]
+  · rw [← hext, ← hft]
+    exact hfoot
 
 end TzVerif.Proofs
